@@ -233,7 +233,7 @@ class Module:
             l = txt[i]
             mg = re.match(r"@([\w.$]+) = .*?(?:constant|global) (.*)$", l)
             if mg:
-                s.globals[mg.group(1)] = mg.group(2)
+                s.globals[mg.group(1)] = ("external " if re.match(r"@[\w.$]+ = external ", l) else "") + mg.group(2)
             if l.startswith("define"):
                 m = re.search(r"@([\w.$]+)\(", l)
                 depth, j = 1, m.end()
@@ -636,7 +636,8 @@ class Interp:
     def global_ptr(s, name):
         key = "@" + name
         if key not in s.calls:
-            s.calls[key] = s.alloc(None, "none")
+            # an EXTERNAL global (stderr, stdout ...) is opaque: reading a pointer out of it gives NULL, which the output stubs ignore
+            s.calls[key] = s.alloc(None, "zero" if s.mod.globals.get(name, "").startswith("external ") else "none")
         return s.calls[key]
 
     def typed(s, env, txt):
